@@ -123,6 +123,7 @@ def gen_case(rng, strategies=ALL, max_m=20, max_n=24, integer_ok=True):
         else:
             c["alpha"] = None
             c["a"] = rng.randint(0, n)
+            c["afloat"] = rng.random() < 0.3      # a sample count held in a float (np.ceil(...), 1.0)
         if s.startswith("exp"):
             c["beta"] = str(Fraction(rng.randint(0, 8), 8))
             c["exp"] = rng.choice([1, 2, 2, 3, 0.5, 1.5, 4, 0.25, 0.05, 2, 3, 5, 7, 12, 16])     # ints stay Python ints
@@ -144,7 +145,7 @@ def kwargs_of(c):
     kw = {}
     if c["strategy"] in WINDOW:
         if c.get("a") is not None:
-            kw["a"] = c["a"]
+            kw["a"] = float(c["a"]) if c.get("afloat") else c["a"]
         if c.get("alpha") is not None:
             kw["alpha"] = float(Fraction(c["alpha"]))
         if "beta" in c:
